@@ -6,7 +6,7 @@ use crate::common::*;
 
 #[derive(Clone)]
 enum E { Nil, True, False, Va, Num(String), Str(char, String), Name(String), Field(Box<E>, String), Index(Box<E>, Box<E>), Call(Box<E>, Vec<E>), Method(Box<E>, String, Vec<E>), Sugar(Box<E>),
-         Un(&'static str, Box<E>), Bin(&'static str, Box<E>, Box<E>), Paren(Box<E>), Table(Vec<F>) }
+         Un(&'static str, Box<E>), Bin(&'static str, Box<E>, Box<E>), Paren(Box<E>), Table(bool, Vec<F>) }
 #[derive(Clone)]
 enum F { Pos(E), Named(String, E), Key(E, E) }
 enum S { Local(Vec<String>, Vec<E>), Assign(Vec<E>, Vec<E>), Call(E), Do(B), While(E, B), Repeat(B, E), If(E, B, Els),
@@ -25,7 +25,7 @@ const BINS: &[(&str, u32, bool)] = &[("or", 1, false), ("and", 2, false), ("<", 
     ("..", 8, true), ("+", 9, false), ("-", 9, false), ("*", 10, false), ("/", 10, false), ("%", 10, false), ("^", 12, true)];
 fn binfo(op: &str) -> (u32, bool) { let b = BINS.iter().find(|b| b.0 == op).unwrap(); (b.1, b.2) }
 
-struct G<'a> { rng: &'a mut Rng, loops: usize }
+struct G<'a> { rng: &'a mut Rng, loops: usize, noml: usize }
 impl<'a> G<'a> {
     fn name(&mut self) -> String { self.rng.pick(NAMES).to_string() }
     fn atom(&mut self, vararg: bool) -> E {
@@ -38,23 +38,37 @@ impl<'a> G<'a> {
         }
     }
     /// call arguments; one time in three a single string / table, half of them written without parentheses (E::Sugar)
+    /// an expression without a table written over several lines inside (the layout of argument lists, generic-for lists,
+    /// index keys and prefixes that hold one follows heuristics outside L0)
+    fn exp_noml(&mut self, d: usize, va: bool) -> E { self.noml += 1; let e = self.exp(d, va); self.noml -= 1; e }
+    /// call arguments; one time in three a single string / table, half of them written without parentheses (E::Sugar);
+    /// otherwise each argument is a table (possibly over several lines) or an expression without such a table inside
     fn args(&mut self, d: usize, va: bool) -> Vec<E> {
         if self.rng.chance(1, 3) {
             let x = if d > 0 && self.rng.chance(1, 2) { self.table(d - 1, va) } else { self.string() };
             let x = if self.rng.chance(1, 5) { E::Paren(Box::new(x)) } else if self.rng.chance(1, 2) { E::Sugar(Box::new(x)) } else { x };
             return vec![x];
         }
-        (0..self.rng.below(4)).map(|_| self.exp(d, va)).collect()
+        // at most one of several arguments is a table written over several lines (two of them make the whole list break)
+        let mut had_ml = false;
+        (0..self.rng.below(4)).map(|_| if d > 0 && self.rng.chance(1, 5) {
+            if had_ml { self.noml += 1; }
+            let t = self.table(d - 1, va);
+            if had_ml { self.noml -= 1; }
+            if matches!(t, E::Table(true, _)) { had_ml = true; }
+            t
+        } else { self.exp_noml(d, va) }).collect()
     }
     /// a prefix expression: name, parenthesised expression, field / index / call / method chain
     fn prefix(&mut self, d: usize, va: bool) -> E {
-        let mut e = if d > 0 && self.rng.chance(1, 6) { E::Paren(Box::new(self.exp(d - 1, va))) } else { E::Name(self.name()) };
+        let mut e = if d > 0 && self.rng.chance(1, 6) { E::Paren(Box::new(self.exp_noml(d - 1, va))) } else { E::Name(self.name()) };
         for _ in 0..self.rng.below(3) {
             e = match self.rng.below(5) {
                 0 => E::Field(Box::new(e), self.name()),
-                1 if d > 0 => E::Index(Box::new(e), Box::new(self.exp(d - 1, va))),
-                2 if d > 0 => E::Call(Box::new(e), self.args(d - 1, va)),
-                3 if d > 0 => E::Method(Box::new(e), self.name(), self.args(d - 1, va)),
+                1 if d > 0 => E::Index(Box::new(e), Box::new(self.exp_noml(d - 1, va))),
+                // the arguments of calls inside expressions hold no table written over several lines (chains that hold one are hung)
+                2 if d > 0 => { self.noml += 1; let a = self.args(d - 1, va); self.noml -= 1; E::Call(Box::new(e), a) }
+                3 if d > 0 => { self.noml += 1; let a = self.args(d - 1, va); self.noml -= 1; E::Method(Box::new(e), self.name(), a) }
                 _ => E::Field(Box::new(e), self.name()),
             };
         }
@@ -93,7 +107,9 @@ impl<'a> G<'a> {
     fn string(&mut self) -> E { let (q, b) = *self.rng.pick(STRS0); E::Str(q, b.to_string()) }
     fn table(&mut self, d: usize, va: bool) -> E {
         let n = self.rng.below(4);
-        E::Table((0..n).map(|_| match self.rng.below(3) {
+        // one table in three has a line break right behind its `{` in the source: the formatter then always writes it over several lines
+        let ml = self.noml == 0 && self.rng.chance(1, 3);
+        E::Table(ml, (0..n).map(|_| match self.rng.below(3) {
             0 => F::Named(self.name(), self.exp(d, va)),
             1 => F::Key(self.exp(d, va), self.exp(d, va)),
             _ => F::Pos(self.exp(d, va)),
@@ -105,15 +121,15 @@ impl<'a> G<'a> {
     fn var(&mut self, va: bool) -> E {
         let n = E::Name(self.name());
         // one time in six a call in the middle of the chain: `f "s".x = 1`, `f({}):m()[1] = 2`
-        let n = if self.rng.chance(1, 6) { if self.rng.chance(1, 3) { E::Method(Box::new(n), self.name(), self.args(1, va)) } else { E::Call(Box::new(n), self.args(1, va)) } } else { n };
+        let n = if self.rng.chance(1, 6) { self.noml += 1; let a = self.args(1, va); self.noml -= 1; if self.rng.chance(1, 3) { E::Method(Box::new(n), self.name(), a) } else { E::Call(Box::new(n), a) } } else { n };
         let must = !matches!(n, E::Name(_));
-        match self.rng.below(3) { 0 if !must => n, 1 => E::Field(Box::new(n), self.name()), 0 => E::Field(Box::new(n), self.name()), _ => E::Index(Box::new(n), Box::new(self.exp(1, va))) }
+        match self.rng.below(3) { 0 if !must => n, 1 => E::Field(Box::new(n), self.name()), 0 => E::Field(Box::new(n), self.name()), _ => E::Index(Box::new(n), Box::new(self.exp_noml(1, va))) }
     }
     fn call_stmt(&mut self, va: bool) -> E {
         let n = E::Name(self.name());
         let f = if self.rng.chance(1, 3) { E::Field(Box::new(n), self.name()) } else { n };
         // one time in five a call of the result of a call: `f "s" "t"`, `f("s"):m()`
-        let f = if self.rng.chance(1, 5) { E::Call(Box::new(f), self.args(1, va)) } else { f };
+        let f = if self.rng.chance(1, 5) { self.noml += 1; let a = self.args(1, va); self.noml -= 1; E::Call(Box::new(f), a) } else { f };
         if self.rng.chance(1, 3) { E::Method(Box::new(f), self.name(), self.args(2, va)) } else { E::Call(Box::new(f), self.args(2, va)) }
     }
     fn comment(&mut self) -> String { let n = self.rng.below(1000); match self.rng.below(6) { 0 => String::new(), 1 => format!(" c{} two words", n), 2 => format!("c{}", n), _ => format!(" c{}", n) } }
@@ -159,7 +175,7 @@ impl<'a> G<'a> {
                 S::If(c, t, e)
             }
             10 => { let st = if self.rng.chance(1, 3) { Some(self.exp(1, va)) } else { None }; let (a, b) = (self.exp(1, va), self.exp(1, va)); self.loops += 1; let body = self.block(depth + 1, va, 2); self.loops -= 1; S::NumFor(self.name(), a, b, st, body) }
-            11 => { let ns = self.names(); let es = self.exps(1, 1, va); self.loops += 1; let body = self.block(depth + 1, va, 2); self.loops -= 1; S::GenFor(ns, es, body) }
+            11 => { let ns = self.names(); self.noml += 1; let es = self.exps(1, 1, va); self.noml -= 1; self.loops += 1; let body = self.block(depth + 1, va, 2); self.loops -= 1; S::GenFor(ns, es, body) }
             12 => {
                 let path: Vec<String> = (0..1 + self.rng.below(3)).map(|_| self.name()).collect();
                 let m = if self.rng.chance(1, 3) { Some(self.name()) } else { None };
@@ -189,7 +205,7 @@ fn sx_e(e: &E) -> String {
         E::Method(o, m, a) => format!("(method_{}_{}_{}_({}))", sx_e(o), hx(m), sugar(a), a.iter().map(sx_e).collect::<Vec<_>>().join("_")),
         E::Un(u, x) => format!("(un_{}_{})", u, sx_e(x)), E::Bin(b, l, r) => format!("(bin_{}_{}_{})", b, sx_e(l), sx_e(r)),
         E::Paren(x) => format!("(paren_{})", sx_e(x)), E::Sugar(x) => sx_e(x),
-        E::Table(fs) => format!("(table_({}))", fs.iter().map(|f| match f {
+        E::Table(ml, fs) => format!("({}_({}))", if *ml { "tableml" } else { "table" }, fs.iter().map(|f| match f {
             F::Pos(x) => format!("(fpos_{})", sx_e(x)), F::Named(n, x) => format!("(fnamed_{}_{})", hx(n), sx_e(x)), F::Key(k, x) => format!("(fkey_{}_{})", sx_e(k), sx_e(x)),
         }).collect::<Vec<_>>().join("_")),
     }
@@ -241,8 +257,9 @@ impl<'a> P<'a> {
             E::Bin(b, l, r) => { self.e(l); self.ws(); self.t(b); self.ws(); self.e(r); }
             E::Paren(x) => { self.t("("); self.bl(); self.e(x); self.bl(); self.t(")"); }
             E::Sugar(x) => self.e(x),
-            E::Table(fs) => {
+            E::Table(ml, fs) => {
                 self.t("{"); self.bl();
+                if *ml { self.t("\n"); self.bl(); }
                 for (i, f) in fs.iter().enumerate() {
                     if i > 0 { let sep = if self.rng.chance(1, 4) { ";" } else { "," }; self.t(sep); self.ws(); }
                     match f {
@@ -342,7 +359,7 @@ pub fn main(args: &[String]) {
     for k in 0..n {
         if k % shards != shard { continue; }
         let mut rng = Rng(seed.wrapping_mul(0x9E3779B97F4A7C15) ^ (k as u64).wrapping_mul(0xD1B54A32D192ED03) ^ 0x10);
-        let prog = { let mut g = G { rng: &mut rng, loops: 0 }; let mut b = g.block_t(0, true, 5, true); if b.items.is_empty() { let s = g.stmt(0, true); b.items.push(Item { lead: vec![], blank: false, s, trail: None }); } b };
+        let prog = { let mut g = G { rng: &mut rng, loops: 0, noml: 0 }; let mut b = g.block_t(0, true, 5, true); if b.items.is_empty() { let s = g.stmt(0, true); b.items.push(Item { lead: vec![], blank: false, s, trail: None }); } b };
         let tree = sx_b(&prog);
         let src = { let mut p = P { rng: &mut rng, out: String::new() }; p.block(&prog, true); if !p.out.ends_with('\n') && p.rng.chance(3, 4) { p.t("\n"); } p.out };
         if !parses(&src, syntax("Lua51")) { unparsed += 1; println!("UNPARSED g{} {}", k, hex(src.as_bytes())); continue; }
